@@ -155,7 +155,9 @@ def san_sets(tier, seed):
     sim = {"num": 6 if tier == "quick" else 60, "depth": 80, "seed": seed}
     specs = [("san-roots-d1", B.K("ROOTS", 1, 0, san=True), "bfs", None),
              ("san-epw", B.K("EPw", 2, 0, san=True), "bfs", None) if tier != "quick" else
-             ("san-epxw-d", B.K("EPXw", 1, 4, san=True), "bfs", None),
+             ("san-epallw", B.K("EPALLw", 2, 0, san=True), "bfs", None),
+             ("san-epb", B.K("EPb", 2, 0, san=True), "bfs", None) if tier != "quick" else
+             ("san-epallb", B.K("EPALLb", 2, 0, san=True), "bfs", None),
              ("san-castle", B.K("CASTLE", 0 if tier == "quick" else 1, 1, san=True), "bfs", None),
              ("san-kpk7w", B.K("KPK7w", 0, 3 if tier == "quick" else 0, san=True), "bfs", None),
              ("san-sim-%d" % seed, B.K("ROOTS", 999, 0, san=True), "sim", sim),
